@@ -591,3 +591,48 @@ def rule_components_init_table(repo, rep):
     else:
       rep.derived(R, key, site(f), sample=dict(rule=R, scenarios=len(scen)))
   rep.floor('components-init scenarios interpreted', len(scen), 200)
+
+
+def rule_sqrt_domain(repo, rep):
+  R = 'R-DOM:sqrt-of-clamped-spectrum'
+  rep.rule(R, 'in components_from_metric and _inv_sqrtm-like conversions '
+           'the PSD test only guarantees eigenvalues >= -tol, so every '
+           'np.sqrt there is applied to a value that is non-negative by '
+           'construction (np.maximum(0, .), np.clip(., 0, None), abs, a '
+           'square): otherwise a matrix that is PSD up to rounding yields '
+           'NaN')
+  from .. import guards, astutil
+  f = repo.get_func('_util.components_from_metric')
+  if f is None:
+    rep.unknown(R, '_util.components_from_metric', '', 'function vanished')
+    return
+  rep.analysed(f)
+  body = f.node.body
+  pm = astutil.parents(f.node)
+
+  def dotted(x):
+    return repo.dotted(f.module, x)
+  n = 0
+  for call in astutil.calls_in(f.node):
+    d = dotted(call.func) or ''
+    if not (d.endswith('.sqrt') and d.startswith('numpy') and call.args):
+      continue
+    n += 1
+    top = astutil.stmt_of(f.node, call)
+    while top not in body and top in pm:
+      top = pm[top]
+    arg = astutil.unfold(call.args[0], body, top) if top in body \
+        else call.args[0]
+    sg = guards.sign_of(arg, {}, dotted)
+    clip = isinstance(arg, ast.Call) and (dotted(arg.func) or '').endswith(
+        '.clip') and len(arg.args) >= 2 and \
+        guards.sign_of(arg.args[1], {}, dotted) in (guards.ZERO, guards.POS)
+    key = '_util.components_from_metric:sqrt(%s)' % ast.unparse(
+        call.args[0])[:30]
+    if sg in (guards.POS, guards.NONNEG, guards.ZERO) or clip:
+      rep.derived(R, key, site(f, call))
+    else:
+      rep.refuted(R, key, site(f, call), 'np.sqrt(%s): the argument is only '
+                  'known to exceed -tol (the PSD test), an entry in '
+                  '[-tol, 0) gives NaN' % ast.unparse(arg)[:60])
+  rep.floor('square roots in components_from_metric', n, 2)
